@@ -107,3 +107,36 @@ Example c04_nonvacuous :
   /\ map (fun p => gcost ex_d (fupd a (fst p) (snd p))) [(0, 1); (1, 0); (2, 0)] = [5; 8; 6]
   /\ map (r_active ex_d) [0; 1; 2] = [true; true; true].
 Proof. vm_compute. repeat split; reflexivity. Qed.
+
+(* ------------------------------------------------------------------ deepening 3 (P_Mgm2pA/B/C.v)
+   The payload refinement of the asynchronous MGM2 handlers to the round function is proved
+   (Prop_C03.mgm2_refines_rounds / mgm2_payload_invariant), so the guarded round theorem above holds of real
+   executions: for ANY reachable configuration at cycle boundary j and ANY at boundary j+1 (every schedule), if
+   no computation committed to a coordinated move in that cycle and no variable changed its value, no variable
+   with a neighbour can improve the global cost by a unilateral change.  The guard is what the known finding
+   C04-mgm2-idle-after-commitment violates. *)
+From PyDcop Require Import M_Mgm2x P_Mgm2y P_Mgm2z P_Mgm2pA P_Mgm2pB P_Mgm2pC.
+
+Theorem mgm2_async_no_commit_no_move_1opt : forall d stop thr favor orc fuel cf1 cf2 j, fuel_ok d fuel -> wf_dcop d = true ->
+  reachable (mgm2_proto_f d stop thr favor orc fuel) cf1 -> reachable (mgm2_proto_f d stop thr favor orc fuel) cf2 ->
+  at_boundary2 d cf1 j -> at_boundary2 d cf2 (S j) ->
+  (forall n, In n (ids d) -> r2_committed d thr favor (RA2 d thr favor orc j) (RO2 d thr favor orc j) n = false) ->
+  (forall n, In n (ids d) -> held2 cf2 n = held2 cf1 n) ->
+  forall n x, In n (ids d) -> nbrs d n <> [] -> In x (dom_of d n) ->
+  better (d_max d) (gcost d (fupd (held2 cf2) n x)) (gcost d (held2 cf2)) = false.
+Proof. exact mgm2_async_no_commit_no_move_1opt_closed. Qed.
+
+(* the hypotheses are met by a real run: ex2_d, stop_cycle 4, nobody ever offers (draw 700); the third cycle is
+   idle: boundaries 2 and 3 hold (0, 1, 1), nobody commits in round 2, and (0, 1, 1) is 1-opt (3 vs 5, 8, 6) *)
+Definition ex4_orc : node -> list Z := fun _ => [0; 700; 700; 700; 700; 700; 700; 700; 700].
+Definition ex4_s (k : nat) : list (@action) :=
+  [Start 0; Start 1; Start 2] ++ List.concat (repeat [Deliver 0 1; Deliver 1 0; Deliver 1 2; Deliver 2 1] k).
+Example c04_mgm2_async_nonvacuous :
+  let P := mgm2_proto_f ex2_d 4 500 0 ex4_orc 60 in
+  let c2 := fst (run P (ex4_s 6)) in let c3 := fst (run P (ex4_s 9)) in
+  at_boundary2b ex2_d c2 2 = true /\ at_boundary2b ex2_d c3 3 = true
+  /\ map (r2_committed ex2_d 500 0 (RA2 ex2_d 500 0 ex4_orc 2) (RO2 ex2_d 500 0 ex4_orc 2)) [0; 1; 2] = [false; false; false]
+  /\ map (held2 c2) [0; 1; 2] = [0; 1; 1] /\ map (held2 c3) [0; 1; 2] = [0; 1; 1]
+  /\ gcost ex2_d (held2 c3) = 3
+  /\ map (fun p => gcost ex2_d (fupd (held2 c3) (fst p) (snd p))) [(0, 1); (1, 0); (2, 0)] = [5; 8; 6].
+Proof. vm_compute. repeat split; reflexivity. Qed.
